@@ -216,6 +216,9 @@ func runC08(c *Ctx, w *World, r *Report) {
 						okM = false
 					}
 				}
+				if ms, isMask := fa.MaskOf(st.Val); isMask && ms.Kind == "low" && ms.N.Eq(fa.Lin(fn.Params[0])) {
+					okM = true // any spelling of "the n low bits": ^(0xff << n), 0xff >> (8-n), ...
+				}
 				if !okM {
 					badN = "wordMask is not (1<<n)-1"
 				}
@@ -243,76 +246,7 @@ func runC08(c *Ctx, w *World, r *Report) {
 			if bad != "" {
 				break
 			}
-			a, b, ok := asBin(ret.Results[0], token.AND)
-			if !ok {
-				bad = "result is not (byte >> k) & wordMask"
-				continue
-			}
-			var sh ssa.Value
-			for _, s := range []ssa.Value{a, b} {
-				if _, f, ok := asFieldLoad(s); ok && f == "wordMask" {
-					continue
-				}
-				sh = s
-			}
-			if sh == nil || sh == a && func() bool { _, f, ok := asFieldLoad(b); return !ok || f != "wordMask" }() {
-				bad = "result is not masked with wordMask"
-				continue
-			}
-			by, amt, ok := asBin(sh, token.SHR)
-			if !ok {
-				bad = "result is not a shifted byte"
-				continue
-			}
-			cont, idx, ok := asElemLoad(by)
-			if !ok || cont != ssa.Value(fn.Params[1]) {
-				bad = "byte is not s[...]"
-				continue
-			}
-			px, cc, ok := asShiftRight(idx)
-			if !ok || cc != 3 || !isProductOf(fa, px, W, ith) {
-				bad = "byte index is not (width*ith)>>3"
-				continue
-			}
-			L := fa.Lin(amt)
-			okA := L.K == 7 && len(L.T) == 1
-			for atom, coef := range L.T {
-				x, j, ok := asLowMask(fa.AtomValue(atom))
-				if !ok || j != 3 || coef != -1 {
-					okA = false
-					continue
-				}
-				rest, ok := linProductPlus(fa, fa.Lin(x), W, ith)
-				if !ok || !rest.Eq(W.Add(linConst(-1))) {
-					okA = false
-				}
-			}
-			if !okA {
-				// the same amount counted from the other side: 8 - width - ((width*ith) & 7) (a word never crosses a
-				// byte boundary because width divides 8, so (p+width-1)&7 = (p&7)+width-1)
-				okB := L.K == 8 && len(L.T) == 2
-				for atom, coef := range L.T {
-					if coef != -1 {
-						okB = false
-						continue
-					}
-					if linAtom(atom).Eq(W) {
-						continue
-					}
-					x, j, ok := asLowMask(fa.AtomValue(atom))
-					if !ok || j != 3 {
-						okB = false
-						continue
-					}
-					if rest, ok := linProductPlus(fa, fa.Lin(x), W, ith); !ok || !rest.Eq(linConst(0)) {
-						okB = false
-					}
-				}
-				okA = okB
-			}
-			if !okA {
-				bad = "shift amount is " + L.String() + ", expected 7 - ((width*ith + width - 1) & 7)"
-			}
+			bad = wordExtractForm(fa, ret.Results[0], fn.Params[1], W, ith)
 		}
 		r.Check(bad == "", "R-GET", n, w.Pos(fn.Pos()), bad, "(s[(w*i)>>3] >> (7 - ((w*i+w-1)&7))) & wordMask")
 	}
@@ -525,7 +459,11 @@ func runC08(c *Ctx, w *World, r *Report) {
 				nst++
 				acc, ok := stripConv(st.Val).(*ssa.Phi)
 				if !ok {
-					bad = "stored byte is not the accumulated value"
+					// scatter form: one pass over the words, word k is added into byte k/byteCap at its final place,
+					// strbs[k/m] += bs[k] << (8 - width*(k%m) - width); the places of missing words stay zero
+					if why := toStrScatter(fa, fn, mk, st, ia, W, M, mv); why != "" {
+						bad = "stored byte is not the accumulated value (and not the scatter form: " + why + ")"
+					}
 					return
 				}
 				iIV, ok := fa.InductionOf(ia.Index, st.Block())
@@ -648,17 +586,48 @@ func runC08(c *Ctx, w *World, r *Report) {
 		// the scan bound: the value the counter of the Get(a,i) != Get(b,i) loop is compared with - the clamped end.
 		// Merges are expanded only down to it: an earlier, not yet clamped version of `end` is a different value.
 		var scanBound ssa.Value
+		// an operand of the difference test: the word of a (or b) at the scan position - a call of Get on the receiver,
+		// or Get's expression spelled out (checked against the same formula as Get itself)
+		Wfd, _, okWfd := fieldAtom(w, fn, "width")
+		fdOperand := func(v ssa.Value) (str ssa.Value, idx ssa.Value, ok bool) {
+			if c, isCall := v.(*ssa.Call); isCall {
+				if c.Common().StaticCallee() == fns["bitword.(*bitWord).Get"] && c.Common().Args[0] == ssa.Value(fn.Params[0]) {
+					return c.Common().Args[1], c.Common().Args[2], true
+				}
+				return nil, nil, false
+			}
+			if !okWfd {
+				return nil, nil, false
+			}
+			for _, b := range fn.Blocks {
+				for _, ins := range b.Instrs {
+					p, isPhi := ins.(*ssa.Phi)
+					if !isPhi {
+						break
+					}
+					if !isLoopHeaderPhi(p) {
+						continue
+					}
+					for _, sp := range []ssa.Value{fn.Params[1], fn.Params[2]} {
+						if wordExtractForm(fa, v, sp, Wfd, fa.Lin(p)) == "" {
+							return sp, p, true
+						}
+					}
+				}
+			}
+			return nil, nil, false
+		}
 		eachInstr(fn, func(ins ssa.Instruction) {
 			bo, ok := ins.(*ssa.BinOp)
 			if !ok || (bo.Op != token.NEQ && bo.Op != token.EQL) || scanBound != nil {
 				return
 			}
-			ca, ok1 := bo.X.(*ssa.Call)
-			cb, ok2 := bo.Y.(*ssa.Call)
-			if !ok1 || !ok2 || ca.Common().StaticCallee() != fns["bitword.(*bitWord).Get"] || cb.Common().StaticCallee() != fns["bitword.(*bitWord).Get"] {
+			_, ia, ok1 := fdOperand(bo.X)
+			_, _, ok2 := fdOperand(bo.Y)
+			if !ok1 || !ok2 {
 				return
 			}
-			if iv, ok := fa.InductionOf(ca.Common().Args[2], bo.Block()); ok && iv.HasN && len(iv.N.T) == 1 && iv.N.K == 0 {
+			if iv, ok := fa.InductionOf(ia, bo.Block()); ok && iv.HasN && len(iv.N.T) == 1 && iv.N.K == 0 {
 				for atom := range iv.N.T {
 					scanBound = fa.AtomValue(atom)
 				}
@@ -715,15 +684,13 @@ func runC08(c *Ctx, w *World, r *Report) {
 					if !ok || !(bo.Op == token.NEQ && cd.Pol || bo.Op == token.EQL && !cd.Pol) {
 						continue
 					}
-					ca, ok1 := bo.X.(*ssa.Call)
-					cb, ok2 := bo.Y.(*ssa.Call)
-					if !ok1 || !ok2 || ca.Common().StaticCallee() != fns["bitword.(*bitWord).Get"] || cb.Common().StaticCallee() != fns["bitword.(*bitWord).Get"] {
+					sa, ia, ok1 := fdOperand(bo.X)
+					sb, ib, ok2 := fdOperand(bo.Y)
+					if !ok1 || !ok2 {
 						continue
 					}
-					aa, ab := ca.Common().Args, cb.Common().Args
-					if aa[0] == ssa.Value(fn.Params[0]) && ab[0] == ssa.Value(fn.Params[0]) &&
-						(aa[1] == ssa.Value(fn.Params[1]) && ab[1] == ssa.Value(fn.Params[2]) || aa[1] == ssa.Value(fn.Params[2]) && ab[1] == ssa.Value(fn.Params[1])) &&
-						fa.VN(aa[2]) == fa.VN(v) && fa.VN(ab[2]) == fa.VN(v) {
+					if (sa == ssa.Value(fn.Params[1]) && sb == ssa.Value(fn.Params[2]) || sa == ssa.Value(fn.Params[2]) && sb == ssa.Value(fn.Params[1])) &&
+						fa.VN(ia) == fa.VN(v) && fa.VN(ib) == fa.VN(v) {
 						okC = true
 					}
 				}
@@ -950,4 +917,141 @@ func init() {
 		Quick:   []Config{cfgDefault, cfg386}, Thorough: []Config{cfgDefault, cfg386},
 		Run: runC08,
 	})
+}
+
+// wordExtractForm: v is the ith word of string str in bitword's layout - (str[(W*ith)>>3] >> (7 - ((W*ith+W-1)&7))) & wordMask
+// (W the width field's atom). Returns "" or what is wrong. This is the body of Get; FirstDiff may spell it out.
+func wordExtractForm(fa *FA, v ssa.Value, str ssa.Value, W Lin, ith Lin) string {
+	bad := ""
+	for once := true; once; once = false {
+		a, b, ok := asBin(v, token.AND)
+		if !ok {
+			bad = "result is not (byte >> k) & wordMask"
+			continue
+		}
+		var sh ssa.Value
+		for _, s := range []ssa.Value{a, b} {
+			if _, f, ok := asFieldLoad(s); ok && f == "wordMask" {
+				continue
+			}
+			sh = s
+		}
+		if sh == nil || sh == a && func() bool { _, f, ok := asFieldLoad(b); return !ok || f != "wordMask" }() {
+			bad = "result is not masked with wordMask"
+			continue
+		}
+		by, amt, ok := asBin(sh, token.SHR)
+		if !ok {
+			bad = "result is not a shifted byte"
+			continue
+		}
+		cont, idx, ok := asElemLoad(by)
+		if !ok || cont != str {
+			bad = "byte is not s[...]"
+			continue
+		}
+		px, cc, ok := asShiftRight(idx)
+		if !ok || cc != 3 || !isProductOf(fa, px, W, ith) {
+			bad = "byte index is not (width*ith)>>3"
+			continue
+		}
+		L := fa.Lin(amt)
+		okA := L.K == 7 && len(L.T) == 1
+		for atom, coef := range L.T {
+			x, j, ok := asLowMask(fa.AtomValue(atom))
+			if !ok || j != 3 || coef != -1 {
+				okA = false
+				continue
+			}
+			rest, ok := linProductPlus(fa, fa.Lin(x), W, ith)
+			if !ok || !rest.Eq(W.Add(linConst(-1))) {
+				okA = false
+			}
+		}
+		if !okA {
+			// the same amount counted from the other side: 8 - width - ((width*ith) & 7) (a word never crosses a
+			// byte boundary because width divides 8, so (p+width-1)&7 = (p&7)+width-1)
+			okB := L.K == 8 && len(L.T) == 2
+			for atom, coef := range L.T {
+				if coef != -1 {
+					okB = false
+					continue
+				}
+				if linAtom(atom).Eq(W) {
+					continue
+				}
+				x, j, ok := asLowMask(fa.AtomValue(atom))
+				if !ok || j != 3 {
+					okB = false
+					continue
+				}
+				if rest, ok := linProductPlus(fa, fa.Lin(x), W, ith); !ok || !rest.Eq(linConst(0)) {
+					okB = false
+				}
+			}
+			okA = okB
+		}
+		if !okA {
+			bad = "shift amount is " + L.String() + ", expected 7 - ((width*ith + width - 1) & 7)"
+		}
+	}
+	return bad
+}
+
+// toStrScatter: the store st into result byte ia of ToStr has the scatter form (see R-TOSTR). Returns "" when it does.
+func toStrScatter(fa *FA, fn *ssa.Function, mk *ssa.MakeSlice, st *ssa.Store, ia *ssa.IndexAddr, W, M Lin, mv ssa.Value) string {
+	bo, ok := stripConv(st.Val).(*ssa.BinOp)
+	if !ok || (bo.Op != token.ADD && bo.Op != token.OR) {
+		return "the stored value is not old | (word << k)"
+	}
+	var old, sh ssa.Value
+	for _, side := range [2][2]ssa.Value{{bo.X, bo.Y}, {bo.Y, bo.X}} {
+		if c, i, ok := asElemLoad(side[0]); ok && c == ssa.Value(mk) && fa.Lin(i).Eq(fa.Lin(ia.Index)) {
+			old, sh = side[0], side[1]
+		}
+	}
+	if old == nil {
+		return "the byte is not updated from its own previous value"
+	}
+	// destination k / byteCap
+	kq, d, ok := asBin(ia.Index, token.QUO)
+	if !ok || fa.VN(stripConv(d)) != fa.VN(mv) {
+		return "the destination is not byte k/byteCap"
+	}
+	wv, amt, ok := asBin(sh, token.SHL)
+	if !ok {
+		return "the word is not shifted to its place"
+	}
+	cont, ki, ok := asElemLoad(wv)
+	if !ok || cont != ssa.Value(fn.Params[1]) || !fa.Lin(ki).Eq(fa.Lin(kq)) {
+		return "the word added is not bs[k] for the k that selects the byte"
+	}
+	if _, okR, why := fullRangeElem(fa, wv); !okR {
+		return "the pass over the words is not complete: " + why
+	}
+	// amount = 8 - width - width*(k % byteCap)
+	L := fa.Lin(amt).Add(W)
+	if L.K != 8 || len(L.T) != 1 {
+		return "shift amount is " + fa.Lin(amt).String() + ", expected 8 - width*(k%byteCap) - width"
+	}
+	for atom, coef := range L.T {
+		x, y, ok := asProduct(fa.AtomValue(atom))
+		if !ok || coef != -1 {
+			return "shift amount is " + fa.Lin(amt).String() + ", expected 8 - width*(k%byteCap) - width"
+		}
+		okP := false
+		for _, pr := range [2][2]ssa.Value{{x, y}, {y, x}} {
+			if !fa.Lin(pr[0]).Eq(W) {
+				continue
+			}
+			if kr, dm, ok := asBin(pr[1], token.REM); ok && fa.VN(stripConv(dm)) == fa.VN(mv) && fa.Lin(kr).Eq(fa.Lin(kq)) {
+				okP = true
+			}
+		}
+		if !okP {
+			return "shift amount is " + fa.Lin(amt).String() + ", expected 8 - width*(k%byteCap) - width"
+		}
+	}
+	_ = M
+	return ""
 }
